@@ -776,7 +776,7 @@ def arith_battery():
 def arith_cases(ctx, corr):
     rng = ctx.rng
     es = arith_battery()
-    n_rand = 250 if not ctx.thorough else 4000
+    n_rand = 700 if not ctx.thorough else 12000
     for _ in range(n_rand):
         e, _ = gen_defined_expr(rng, rng.choice([2, 3, 4, 5]), [], {})
         es.append(e)
@@ -867,7 +867,7 @@ def known_witness(ctx, corr):
     open(os.path.join(d, 'w.c'), 'w').write('#if (1 < 2) << 40\nmk_t\n#else\nmk_f\n#endif\n')
     a, _ = run_pp([ctx.cc, '-E', 'w.c'], d)
     corr.evaluations += 1
-    if a == 'ok:mk_f':
+    if a == 'ok:mk_f' and KNOWN_SHIFT not in corr.known_hits:
         corr.known_hits.append(KNOWN_SHIFT)
     corr.extra['known_finding_witness'] = {'input': '#if (1 < 2) << 40', 'chibicc': a, 'C11': 'ok:mk_t'}
 
@@ -1284,7 +1284,7 @@ def correspond(ctx, corr):
     known_witness(ctx, corr)
     fixed_include_cases(ctx, corr)
     arith_cases(ctx, corr)
-    nv, nb, ng = (160, 50, 90) if not ctx.thorough else (4000, 800, 1500)
+    nv, nb, ng = (700, 200, 350) if not ctx.thorough else (12000, 3000, 6000)
     for chunk in range(0, nv, 400):
         cond_cases(ctx, corr, min(400, nv - chunk), min(100, max(0, nb - chunk // 4)), 'nest')
         if corr.disagreements or [v for v in corr.violations if not v.get('known_id')]:
